@@ -197,6 +197,9 @@ Variables lower upper : str -> str.      (* str.lower, str.upper *)
 Variable parse_tree : mapper -> tz -> res (option T * mapper * tz).
 Variable set_label : T -> option str -> T.          (* tree.label = ... *)
 Variable add_comments : T -> list str -> T.         (* process_comments_for_item(tree, comments, ..) *)
+(* variant: _parse_link_statement upper-cases the token that follows a `X = title` clause
+   (repaired form) or leaves it as written (form as found: a lower-case second keyword is skipped) *)
+Variable v_link_ucase : bool.
 
 Definition next_token_ucase (z : tz) : res tz :=
   do r <- fetch z ;; let '(b, z') := r in
@@ -461,11 +464,12 @@ Fixpoint link_loop (fuel : nat) (z : tz) (taxa : option str) : res (option str *
       if negb (tok_is z1 K_EQ) then Err ParseErr
       else do z2 <- next_token z1 ;;
            let v := z_cur z2 in
-           do z3 <- next_token z2 ;; link_loop f z3 v
+           do z3 <- (if v_link_ucase then next_token_ucase z2 else next_token z2) ;; link_loop f z3 v
     else if tok_is z K_CHARACTERS then
       do z1 <- next_token z ;;
       if negb (tok_is z1 K_EQ) then Err ParseErr
-      else do z2 <- next_token z1 ;; do z3 <- next_token z2 ;; link_loop f z3 taxa
+      else do z2 <- next_token z1 ;;
+           do z3 <- (if v_link_ucase then next_token_ucase z2 else next_token z2) ;; link_loop f z3 taxa
     else do z1 <- require_next_token_ucase z ;; link_loop f z1 taxa
   end.
 Definition parse_link (fuel : nat) (z : tz) : res (option str * tz) :=
@@ -910,6 +914,7 @@ Variable add_comments : T -> list str -> T.
      v_keep_label - Tree.get keeps the tree name read from the source when no `label` keyword is
                     given (repaired form) instead of assigning None (current form: false) *)
 Variables v_attach v_keep_label : bool.
+Variable v_link_ucase : bool.   (* see Section Drivers *)
 
 Definition doc : Type := (list token * tend)%type.
 Definition doc_tz (d : doc) : tz := tz_init (fst d) (snd d).
@@ -945,7 +950,7 @@ Definition rs_list0 (s : rs T) : list T := tl_trees (nth O (r_tls s) (mkTl None 
 Definition rs_ns0 (s : rs T) : list str := nth O (k_nss (r_k s)) [].
 
 Definition nexus_read (c : cfg) (ns0 : list str) (d : doc) : res (rs T) :=
-  r_parse_nexus_stream T lower upper parse_tree set_label add_comments (c_ns c) (c_tlfac c) false (doc_fuel d) (nexus_init c ns0 d).
+  r_parse_nexus_stream T lower upper parse_tree set_label add_comments v_link_ucase (c_ns c) (c_tlfac c) false (doc_fuel d) (nexus_init c ns0 d).
 
 Definition newick_read (ns0 : list str) (d : doc) : res (list T * list str) :=
   do r <- newick_read_loop T parse_tree (doc_fuel d) (new_mapper lower ns0 false) (doc_tz d) [] ;;
@@ -1011,7 +1016,7 @@ Definition yield_from_files (sch : schema) (ns0 : list str) (d : doc) : list T *
     let '(out, r) := newick_yield_loop T parse_tree (doc_fuel d) (new_mapper lower ns0 false) (doc_tz d) in
     (out, do x <- r ;; Ok (m_ns (fst x)))
   | Nexus =>
-    let '(out, r) := y_items_from_stream T lower upper parse_tree set_label add_comments (c_ns cfg_yield) false
+    let '(out, r) := y_items_from_stream T lower upper parse_tree set_label add_comments v_link_ucase (c_ns cfg_yield) false
                                          (doc_fuel d) (core_init (c_ns cfg_yield) ns0 d) (regs_init (c_ns cfg_yield)) in
     (out, do s <- r ;; Ok (nth O (k_nss (fst s)) []))
   end.
@@ -1194,6 +1199,7 @@ Inductive robs : Type :=
 Record case : Type := mkCase {
   k_vattach : bool;                (* which form the working tree has, see Section Routes *)
   k_vkeep : bool;
+  k_vlink : bool;
   k_nexus : bool;
   k_lower : list (Z * Z);          (* non-ASCII (upper, lower) pairs occurring in the document *)
   k_toks : list token;
@@ -1213,21 +1219,21 @@ Let sch := if k_nexus k then Nexus else Newick.
 Let d : doc := (k_toks k, k_end k).
 Let PT := sk_parse_tree lo.
 
-Definition m_treelist_read := treelist_read sktree lo up PT sk_set_label sk_add_comments (k_vattach k) sch.
-Definition m_yield := yield_from_files sktree lo up PT sk_set_label sk_add_comments sch.
+Definition m_treelist_read := treelist_read sktree lo up PT sk_set_label sk_add_comments (k_vattach k) (k_vlink k) sch.
+Definition m_yield := yield_from_files sktree lo up PT sk_set_label sk_add_comments (k_vlink k) sch.
 
 Definition route_run (r : route) : robs :=
   match r with
-  | RList => OList (treelist_get sktree lo up PT sk_set_label sk_add_comments (k_vattach k) sch d)
-  | RListOff c kk => OTrees (treelist_get_off sktree lo up PT sk_set_label sk_add_comments (k_vattach k) sch c kk d)
-  | RTree c kk => OTree (tree_get sktree lo up PT sk_set_label sk_add_comments (k_vattach k) (k_vkeep k) sch c kk d)
+  | RList => OList (treelist_get sktree lo up PT sk_set_label sk_add_comments (k_vattach k) (k_vlink k) sch d)
+  | RListOff c kk => OTrees (treelist_get_off sktree lo up PT sk_set_label sk_add_comments (k_vattach k) (k_vlink k) sch c kk d)
+  | RTree c kk => OTree (tree_get sktree lo up PT sk_set_label sk_add_comments (k_vattach k) (k_vkeep k) (k_vlink k) sch c kk d)
   | RRead ns0 => OList (m_treelist_read ns0 d)
-  | RReadTwice ns0 => OList (treelist_read_twice sktree lo up PT sk_set_label sk_add_comments (k_vattach k) sch ns0 d)
+  | RReadTwice ns0 => OList (treelist_read_twice sktree lo up PT sk_set_label sk_add_comments (k_vattach k) (k_vlink k) sch ns0 d)
   | RYield ns0 => let '(out, r) := m_yield ns0 d in OYield out r
   | RArray kk =>
-    let '(out, r) := treearray_read sktree lo up PT sk_set_label sk_add_comments sch kk [] d in
+    let '(out, r) := treearray_read sktree lo up PT sk_set_label sk_add_comments (k_vlink k) sch kk [] d in
     OCount (length out) (do _ <- r ;; Ok tt)
-  | RDataset a => OBlocks (dataset_get sktree lo up PT sk_set_label sk_add_comments sch a d)
+  | RDataset a => OBlocks (dataset_get sktree lo up PT sk_set_label sk_add_comments (k_vlink k) sch a d)
   end.
 
 Definition sks_eqb := list_eqb sk_eqb.
